@@ -82,7 +82,7 @@ def t_fields_carried_over(ev, outcome, exc, path, I):
 c = contract(F + "convert", variant="to-pie").props('C05', 'C13', 'C20')
 c.args(self=('obj', 'kmip.pie.factory.ObjectFactory', {}), obj=CORE)
 c.let('__obj__', 'obj')
-c.raises(None)
+c.raises(('TypeError', 'ValueError'))       # what Register maps to Invalid Field; anything else is unexpected
 c.scope('raises.unexpected', 'C13')
 c.trace("stored-fields-are-the-registered-ones", t_fields_carried_over)
 c.scope('trace.stored-fields', 'C05')
